@@ -169,7 +169,7 @@ def h_digits(I):
 
 def cells(tier):
     quick = tier == "quick"
-    lo, hi = (10, 99) if quick else (1, 999)
+    lo, hi = (10, 99) if quick else (1, 99)
     sb = f"sequence numbers symbolic in [{lo},{hi}]"
     out = []
     stub = stubcheck.run()
